@@ -200,23 +200,116 @@ def forward_check(src, dst, report, max_implicit=0):
                         # also accept when M is itself inside the region: M descendant-of-N's rebuilt copy cannot be decided
                         report("rebuilt-lost-descendants", {"cursor": [list(x) for x in path], "fwd_path": [list(x) for x in impl._path],
                                                             "stmt": str(N)[:80], "got_stmt": str(M)[:80]})
-    # gaps and blocks: non-dangling only
-    for path, N in irx.all_stmts(sroot):
-        for w in (ic.GapType.Before, ic.GapType.After):
-            g = lift_cursor(ic.Gap(sroot, ic.Node(sroot, list(path)), w), src)
-            try:
-                g2 = dst.forward(g)
-            except (InvalidCursorError, NotImplementedError):
-                continue
-            except Exception as ex:
-                report("forward-exception", {"gap": [list(x) for x in path], "exc": f"{type(ex).__name__}: {ex}"[:200]})
-                continue
-            try:
-                A = _resolve(droot, g2._impl._anchor._path)
-                if not isinstance(A, LoopIR.stmt) or not isinstance(g2._impl, ic.Gap):
-                    report("forward-kind", {"gap": [list(x) for x in path]})
-            except Exception:
-                report("dangling", {"gap": [list(x) for x in path]})
+    # gaps: never dangling; and when both neighbours of the gap were carried over and are still adjacent
+    # (in that order, in one block) -- or the gap sat at the start / end of a block whose neighbour is
+    # carried and still first / last -- the forwarded gap must be exactly there
+    def locate(node):
+        ps = dst_ids.get(id(node))
+        return ps[0] if ps and len(ps) == 1 else None
+
+    sblocks = irx.all_blocks(sroot)
+    for ppath, attr, lst in sblocks:
+        for k in range(len(lst) + 1):
+            if k < len(lst):
+                anchor_path, w = list(ppath) + [(attr, k)], ic.GapType.Before
+            else:
+                anchor_path, w = list(ppath) + [(attr, k - 1)], ic.GapType.After
+            tags = [(anchor_path, w)]
+            if 0 < k < len(lst):
+                tags.append((list(ppath) + [(attr, k - 1)], ic.GapType.After))
+            for apath, ww in tags:
+                g = lift_cursor(ic.Gap(sroot, ic.Node(sroot, list(apath)), ww), src)
+                try:
+                    g2 = dst.forward(g)
+                except (InvalidCursorError, NotImplementedError):
+                    continue
+                except Exception as ex:
+                    report("forward-exception", {"gap": [list(x) for x in apath], "exc": f"{type(ex).__name__}: {ex}"[:200]})
+                    continue
+                try:
+                    gi = g2._impl
+                    A = _resolve(droot, gi._anchor._path)
+                    if not isinstance(A, LoopIR.stmt) or not isinstance(gi, ic.Gap):
+                        report("forward-kind", {"gap": [list(x) for x in apath]})
+                        continue
+                except Exception:
+                    report("dangling", {"gap": [list(x) for x in apath]})
+                    continue
+                # position of the forwarded gap: (block path, index)
+                apar, (aattr, aidx) = tuple(tuple(x) for x in gi._anchor._path[:-1]), gi._anchor._path[-1]
+                got = (apar, aattr, aidx if gi._type == ic.GapType.Before else aidx + 1)
+                L = lst[k - 1] if k > 0 else None
+                R = lst[k] if k < len(lst) else None
+                want = None
+                lp = locate(L) if L is not None else None
+                rp = locate(R) if R is not None else None
+                if L is not None and R is not None:
+                    if lp and rp and lp[:-1] == rp[:-1] and lp[-1][0] == rp[-1][0] and lp[-1][1] + 1 == rp[-1][1]:
+                        want = (rp[:-1], rp[-1][0], rp[-1][1])
+                elif L is None and R is not None:
+                    if rp and rp[-1][1] == 0:
+                        want = (rp[:-1], rp[-1][0], 0)
+                elif R is None and L is not None:
+                    if lp:
+                        try:
+                            blk = getattr(_resolve(droot, lp[:-1]), lp[-1][0]) if lp[:-1] else getattr(droot, lp[-1][0])
+                            if lp[-1][1] == len(blk) - 1:
+                                want = (lp[:-1], lp[-1][0], len(blk))
+                        except Exception:
+                            pass
+                if want is not None and got != want:
+                    report("gap-moved", {"gap": [list(x) for x in apath], "side": "before" if ww == ic.GapType.Before else "after",
+                                         "want": [list(map(list, want[0])), want[1], want[2]], "got": [list(map(list, got[0])), got[1], got[2]]})
+    # blocks (every contiguous range of every statement list of at most 6 statements): never dangling;
+    # when all statements of the block were carried over and still form one contiguous run, the
+    # forwarded block must be exactly that run
+    for ppath, attr, lst in sblocks:
+        if len(lst) > 6:
+            continue
+        for lo in range(len(lst)):
+            for hi in range(lo + 1, len(lst) + 1):
+                par = ic.Node(sroot, list(ppath)) if ppath else ic.Node(sroot, [])
+                b = lift_cursor(ic.Block(sroot, par, attr, range(lo, hi)), src)
+                try:
+                    b2 = dst.forward(b)
+                except (InvalidCursorError, NotImplementedError):
+                    continue
+                except Exception as ex:
+                    report("forward-exception", {"block": [[list(x) for x in ppath], attr, lo, hi], "exc": f"{type(ex).__name__}: {ex}"[:200]})
+                    continue
+                bi = b2._impl
+                if isinstance(bi, ic.Node):
+                    # a one-statement block may come back as a node cursor
+                    try:
+                        ms = [_resolve(droot, bi._path)]
+                        gotpos = None
+                    except Exception:
+                        report("dangling", {"block": [[list(x) for x in ppath], attr, lo, hi]})
+                        continue
+                elif isinstance(bi, ic.Block):
+                    try:
+                        an = _resolve(droot, bi._anchor._path)
+                        full = getattr(an, bi._attr)
+                        r = bi._range
+                        if not (0 <= r.start < r.stop <= len(full)):
+                            raise IndexError
+                        ms = list(full[r.start:r.stop])
+                        gotpos = (tuple(tuple(x) for x in bi._anchor._path), bi._attr, r.start, r.stop)
+                    except Exception:
+                        report("dangling", {"block": [[list(x) for x in ppath], attr, lo, hi],
+                                            "fwd": [[list(x) for x in bi._anchor._path], bi._attr, bi._range.start, bi._range.stop]})
+                        continue
+                else:
+                    report("forward-kind", {"block": [[list(x) for x in ppath], attr, lo, hi], "got": type(bi).__name__})
+                    continue
+                ns = lst[lo:hi]
+                locs = [locate(x) for x in ns]
+                if all(locs):
+                    same_blk = all(l[:-1] == locs[0][:-1] and l[-1][0] == locs[0][-1][0] for l in locs)
+                    contiguous = same_blk and all(locs[t][-1][1] == locs[0][-1][1] + t for t in range(len(locs)))
+                    if contiguous and (len(ms) != len(ns) or any(a is not b_ for a, b_ in zip(ms, ns))):
+                        report("block-moved", {"block": [[list(x) for x in ppath], attr, lo, hi],
+                                               "want_first": str(ns[0])[:60], "got_first": str(ms[0])[:60], "got_len": len(ms), "want_len": len(ns)})
     return n_ok, n_inv
 
 
